@@ -38,7 +38,9 @@ Proof. exact skip_zero_exact. Qed.
 
 (* --- every line once, on its own row ----------------------------------------------------------- *)
 (* Row i of a block carries line number start+i, the text of the i-th line of the source block
-   (line terminator removed) and the display entry of line start+i: the cells of the last timing
+   (line terminator removed; `shown_text`: when the stream's strict encoding cannot encode that
+   text - an ascii or latin-1 stdout and a non-ASCII source line - the fixed placeholder
+   "UnicodeEncodeError - help wanted for a fix" instead, still on a row of its own) and the display entry of line start+i: the cells of the last timing
    recorded for that line, or four empty cells when nothing was recorded.  The block has one row
    per line of the source block (for a missing file: per fake empty line). *)
 Theorem C10_every_line_once_on_its_row :
@@ -48,8 +50,7 @@ Theorem C10_every_line_once_on_its_row :
     length (b_rows b) = length sub
     /\ forall i r, nth_error (b_rows b) i = Some r ->
          r_lineno r = start + Z.of_nat i
-         /\ (exists line, nth_error sub i = Some line
-                          /\ r_text r = rstrip_char cr (rstrip_char nl line))
+         /\ (exists line, nth_error sub i = Some line /\ r_text r = shown_text F line)
          /\ r_cells r = display_entry F (total_time tm) tm (start + Z.of_nat i).
 Proof. exact row_i_is_line_start_plus_i. Qed.
 
@@ -107,6 +108,31 @@ Theorem C10_ipython_cell_example :
   = [(("/src/a.py", 1, "f"), [(1, "", "def f(x):"); (2, "1", "    return x")]);
      ((ip_cell, 1, "c0"), [(1, "", "def c0(y):"); (2, "1", "    y += 1"); (3, "1", "    return y")])].
 Proof. exact ipython_cell_example. Qed.
+
+(* REFUTED for cell names whose source is cached nowhere: "every recorded line is on a row" is
+   false of the faithful model when a function's file name is an IPython cell name but neither a
+   file nor a linecache entry provides its source (statistics viewed outside the notebook
+   process): the block is a header and no rows.  The same statistics under any other unknown
+   name keep one row per line (the "Could not find file" branch). *)
+Theorem C10_ipython_cell_without_source_refuted :
+  exists (st : stats) (k : key) (tm : list timing) (E : env) (o : options),
+    NoDup (map fst st) /\ In (k, tm) st /\ NoDup (map t_line tm) /\ tm <> []
+    /\ (forall t, In t tm -> snd (fst k) <= t_line t /\ 1 <= t_hits t)
+    /\ E (fst (fst k)) (snd (fst k)) = Cell []
+    /\ o_details o = true
+    /\ (exists b, In b (rp_blocks (show_text_py 1 None E o st)) /\ b_key b = k /\ b_rows b = [])
+    /\ (exists b, In b (rp_blocks (show_text_py 1 None (fun _ _ => Missing) o st)) /\ b_key b = k
+                  /\ map r_lineno (b_rows b) = [1; 2; 3]).
+Proof. exact uncached_cell_witness. Qed.
+
+(* a stream that cannot encode a source line: the placeholder, still one row per line *)
+Theorem C10_encoding_placeholder_example :
+  option_map (fun b => map (fun r => (r_lineno r, r_text r)) (b_rows b))
+    (show_func (with_encoding (py_formatter 1 None) Ascii)
+               (fun _ _ => Found ["def e(x):"; bs [32;32;97;32;61;32;39;195;169;39]; "  return x"])
+               false ("e.py", 1, "e") [(2, 1, 5); (3, 1, 5)])
+  = Some [(1, "def e(x):"); (2, encode_fallback); (3, "  return x")].
+Proof. exact encoding_example. Qed.
 
 (* without C12's uniqueness: of several timings for one line only the LAST is displayed *)
 Theorem C10_duplicate_lineno_last_wins :
